@@ -712,6 +712,103 @@ class Gen18:
     def program(self):
         return self.nested_program() if self.r.random() < 0.55 else self.random_program()
 
+    # ---- programs for FOUR handles (fixpoint profile only)
+    def deep4_program(self):
+        """The shape of tests/parallel/cycle_nested_deep_conditional.rs over the bit-set lattice:
+           a = b ; b = c | IN ; c = if COND { d | a | e | b } else { d | a } ; d = c ; e = c
+        COND is the provisional VALUE of d (the cycle heads change between iterations: in the first
+        iterations c reaches only d and a, later e and b too) or an input.  Entered by four handles
+        at a, b, d, e: c is transferred to d and d to a, a woken handle re-claims the transferred c
+        and releases it again while the handle of e is blocked on it, then a's lock moves to e.
+        Semantically monotone by construction (the else-branch is a sub-union of the then-branch,
+        every other node is a union / intersection with inputs) although a value-conditioned
+        branch is outside the syntactic class mono_table."""
+        r = self.r
+        ni = 2
+        keys = list(range(5))
+        r.shuffle(keys)
+        ka, kb, kc, kd, ke = keys
+        f = {x: self.fam() for x in "abcde"}
+        call = lambda x, k: ["call", f[x], ["lit", k]]
+        a, b, c, d, e = call("a", ka), call("b", kb), call("c", kc), call("d", kd), call("e", ke)
+        union = lambda xs: xs[0] if len(xs) == 1 else ["op", "or", union(xs[:-1]), xs[-1]]
+        els = [d, a] if r.random() < 0.7 else r.choice([[a, d], [d, a, b]])
+        extra = [x for x in r.sample([e, b], r.choice([1, 2, 2])) if x not in els]
+        r.shuffle(extra)
+        then = els + extra
+        value_cond = r.random() < 0.75
+        cond = d if value_cond else self.cg.in_expr(ni, 1)
+        nodes = {
+            (f["a"], ka): b if r.random() < 0.7 else ["op", "or", b, self.inp(ni)],
+            (f["b"], kb): ["op", "or", c, ["in", 0, 0]] if r.random() < 0.7 else ["op", "and", ["op", "or", c, ["in", 0, 0]], ["in", 0, 1]],
+            (f["c"], kc): ["if", cond, union(then), union(els)],
+            (f["d"], kd): c,
+            (f["e"], ke): c if r.random() < 0.7 else ["op", "or", c, self.inp(ni)],
+        }
+        nl = [["node", ff, k, ex] for (ff, k), ex in sorted(nodes.items())]
+        ival = [[0, 0, r.choice([1, 2, 4, 5, 12])], [0, 1, 255], [0, 2, r.choice([0, 1, 8])],
+                [1, 0, r.choice([0, 1, 3])], [1, 1, r.choice([0, 2, 16])], [1, 2, r.choice([0, 1, 64])]]
+        entries = [(f["a"], ka), (f["b"], kb), (f["d"], kd), (f["e"], ke)]
+        members = entries + [(f["c"], kc)]
+        return 5, ni, nl, ival, [], members, entries, not value_cond
+
+    def chain_program(self):
+        """q0 -> q1 -> .. -> q(n-1), every q(i) also reaches back to one or two EARLIER nodes (q(n-1) to
+        q0): nested heads several levels deep, so that a lock handed over on one thread (q3 => q2 => q1)
+        is handed on, with its whole transfer subtree, when an outer head on another thread turns
+        out to own the cycle (a query is transferred twice; a waiter sits two or more levels down
+        the transfer tree)."""
+        r = self.r
+        n = r.choice([4, 4, 5])
+        ni = 2
+        fams = [self.fam() for _ in range(n)]
+        call = lambda i: ["call", fams[i], ["lit", i]]
+        nodes = {}
+        for i in range(n):
+            terms = [call(i + 1)] if i + 1 < n else []
+            backs = [0] if i == n - 1 else []
+            if i >= 1:
+                backs += r.sample(range(i + 1), r.choice([0, 1, 1, 2]) if i + 1 >= 2 else 1)
+            for bk in sorted(set(backs)):
+                terms.append(self.guard(call(bk), ni) if r.random() < 0.35 else call(bk))
+            r.shuffle(terms)
+            ex = terms[0]
+            for tm in terms[1:]:
+                ex = ["op", "or", ex, tm]
+            if r.random() < 0.5 or not terms:
+                ex = ["op", "or", ex, self.inp(ni)] if terms else self.inp(ni)
+            nodes[(fams[i], i)] = ex
+        nl = [["node", ff, k, ex] for (ff, k), ex in sorted(nodes.items())]
+        ival = [[i, ff, r.choice(MASKS18[1:])] for i in range(ni) for ff in range(3)]
+        members = [(fams[i], i) for i in range(n)]
+        return n, ni, nl, ival, [], members, members, True
+
+    def hard_case(self, cid):
+        """-> (case text, in the syntactic class mono_table?)  four (sometimes three) handles, each
+        entering at a different member, one or two rounds"""
+        r = self.r
+        deep = r.random() < 0.5
+        nk, ni, nl, ival, idur, members, entries, mono = self.deep4_program() if deep else self.chain_program()
+        hist = []
+        rounds = r.choice([1, 1, 2])
+        for rd in range(rounds):
+            nth = 4 if deep or r.random() < 0.7 else 3
+            firsts = list(entries)
+            r.shuffle(firsts)
+            firsts = firsts[:nth]
+            ts = []
+            for q in firsts:
+                gets = [["get", q[0], q[1]]]
+                if r.random() < 0.2:
+                    q2 = r.choice(members)
+                    gets.append(["get", q2[0], q2[1]])
+                ts.append(["T"] + gets)
+            hist.append(["par"] + ts)
+            if rd + 1 < rounds:
+                hist += self.writes(ni)
+        return sx(["case", cid, ["cfg", ["nk", nk], ["ni", ni], ["nf", 3], ["nfam", 5], ["spec", "kleene"], ["probe", r.choice([1, 2])]],
+                   ["ival"] + ival, ["idur"] + idur, ["prog"] + nl, ["hist"] + hist]), mono
+
     # ---- histories
     def group(self, members, tops, nth=None):
         """2-3 threads, each entering at a DIFFERENT member first"""
@@ -794,6 +891,19 @@ def generate18(seed, profile, n, size, prefix="k"):
     rng = random.Random(f"{seed}/c18/{profile}/{size}")
     g = Gen18(rng, profile, size)
     return [g.case(f"{prefix}{i}") for i in range(n)]
+
+
+def generate_hard(seed, n, size, prefix="q"):
+    """-> (cases, ids of the cases that are monotone by construction but outside mono_table)"""
+    rng = random.Random(f"{seed}/c18hard/{size}")
+    g = Gen18(rng, "fix", size)
+    cases, semantic = [], set()
+    for i in range(n):
+        c, mono = g.hard_case(f"{prefix}{i}")
+        cases.append(c)
+        if not mono:
+            semantic.add(f"{prefix}{i}")
+    return cases, semantic
 
 
 def generate_w(seed, n, size, prefix="w"):
@@ -925,6 +1035,9 @@ def parse_g(rest):
 
 def run_harness18(cases, harness_bin, iters, sched, seed, trace_dir=None, trace_cap=10, shards=6,
                   pct_depth=3, max_steps=400000, timeout=3000, ref_orders=0):
+    m = re.match(r"^pct(\d+)$", sched)
+    if m:                                   # "pct50" = the PCT scheduler with 50 priority change points
+        sched, pct_depth = "pct", int(m.group(1))
     os.makedirs(os.path.join(common.BUILD, "cases"), exist_ok=True)
     tmpd = tempfile.mkdtemp(prefix="cyc", dir=os.path.join(common.BUILD, "cases"))
     chunks = [cases[i::shards] for i in range(shards) if cases[i::shards]]
